@@ -92,7 +92,12 @@ static Hdr *arena_block(size_t total) {
 // Under ASan the guard bands (and the slack between the requested size and the block's capacity) are poisoned while a block is live: the
 // code under test must not even READ past what it asked for. The allocator opens them around its own checks. Bytes lent to the harness
 // as a neighbouring object (lend_tail) stay accessible; huge and whole-page blocks have no guards.
-static inline void guards_open(Hdr *h) { if (!(h->flags & (4 | 16))) UNPOISON(user_of(h) - GUARD, GUARD + h->cap + GUARD); }
+static inline void guards_open(Hdr *h) {
+    if (h->flags & (4 | 16)) return;
+    uint8_t *u = user_of(h); // only the guard regions are touched: the block itself may be tens of MiB
+    UNPOISON(u - GUARD, GUARD);
+    UNPOISON(u + h->size, h->cap + GUARD - h->size);
+}
 static inline void guards_close(Hdr *h) {
     if (h->flags & (4 | 16)) return;
     uint8_t *u = user_of(h);
@@ -276,6 +281,25 @@ static void *vt_realloc(struct aws_allocator *, void *old, size_t oldsize, size_
         do_release(old, true);
         S.moved++;
         return np;
+    }
+    if (newsize > h->cap && !(h->flags & (2 | 4 | 16)) && !((h->flags >> 8) & 0xFF) && in_arena(h) &&
+        (uint8_t *)h + sizeof(Hdr) + GUARD + h->cap + GUARD == g_arena + g_arena_used && !S.rng.chance(S.cfg.p_move)) {
+        // the block is the last one of the arena: like a real heap extending its top chunk, it grows where it is (a buffer that is grown
+        // a few KiB at a time tens of thousands of times would otherwise be copied each time)
+        size_t newcap = class_of(newsize), delta = newcap - h->cap;
+        if (g_arena_used + delta <= ARENA_SIZE) {
+            guards_open(h);
+            g_arena_used += delta;
+            if (g_arena_used > g_arena_high) g_arena_high = g_arena_used;
+            uint8_t *u = user_of(h);
+            UNPOISON(u + h->cap, delta + GUARD);
+            memset(u + h->size, S.junk, newsize - h->size);
+            memset(u + newsize, GUARD_BYTE, newcap - newsize + GUARD);
+            h->size = newsize;
+            h->cap = newcap;
+            guards_close(h);
+            return old;
+        }
     }
     if (newsize <= h->cap && !((h->flags >> 8) & 0xFF) && !S.rng.chance(S.cfg.p_move)) {
         // stays in place
